@@ -261,3 +261,20 @@ Definition send_file_respond (parse_date : str -> option Z) (env : environ) (eta
     {| i_status := 200; i_etag := etag; i_last_modified := last_modified; i_content_length := Some (dec_Z size);
        i_passthrough := true; i_body := BFile d (N.to_nat file_wrapper_buffer_size) |}
     ATrue (Some size).
+
+(* ------------------------------------------------------------------ headers around the status *)
+(* RequestedRangeNotSatisfiable(length).get_headers(): Content-Range: <units> */<length> when the length is known *)
+Definition content_range_416 (l : pint) : option str :=
+  match l with
+  | Some _ => Some (unsatisfiable_units ++ SP :: STAR :: SLASH :: fmt_pint l)
+  | None => None
+  end.
+
+(* Response.get_wsgi_headers: is a header of the response (name compared in lower case) still there in the WSGI
+   header list - entity headers go on 304 except the allowed ones, Content-Length goes on 1xx / 204 *)
+Definition s_content_length : str := [99; 111; 110; 116; 101; 110; 116; 45; 108; 101; 110; 103; 116; 104].
+Definition wsgi_header_kept (status : N) (name : str) : bool :=
+  let n := lower name in
+  if ((100 <=? status) && (status <? 200)) || (status =? 204) then negb (list_eqb n s_content_length)
+  else if status =? 304 then negb (existsb (list_eqb n) entity_headers) || existsb (list_eqb n) entity_allowed
+  else true.
